@@ -87,3 +87,27 @@ Proof.
 Qed.
 Example ex_tree2_roundtrip : parse_text (print_expr true ex_tree2) = Some (norm ex_tree2).
 Proof. apply print_parse_roundtrip_concrete; apply ex_tree2_wf. Qed.
+
+(* calls and new: a call inside the callee of "new" (directly, under a member access, as the base of an
+   index), "new" as a member target keeps its parentheses, the empty "()" is dropped only when minifying
+   and only where the grammar allows it, argument lists hold assignments and conditionals but a comma
+   operator argument is parenthesised *)
+Definition ex_tree3 : expr :=
+  ECall (EDot (ENew (EDot (ECall (EId (zs "a")) ANil) (zs "b")) ANil) (zs "c"))
+        (ACons (ENew (ENew (EId (zs "d")) ANil) ANil)
+        (ACons (EBin BComma (EId (zs "e")) (EId (zs "f")))
+        (ACons (EBin BAssign (EId (zs "g")) (ENew (EIndex (EId (zs "h")) (ECall (EId (zs "i")) (ACons (ENum (zs "1")) ANil))) (ACons (EId (zs "j")) ANil)))
+        (ACons (EUn UPostInc (EDot (ENew (EId (zs "k")) ANil) (zs "l"))) ANil)))).
+Example ex_tree3_print_min : print_expr true ex_tree3 = zs "new(a()).b().c(new new d(),(e,f),g=new h[i(1)](j),new k().l++)".
+Proof. vm_compute. reflexivity. Qed.
+Example ex_tree3_print : print_expr false ex_tree3 = zs "new (a()).b().c(new new d()(), (e, f), g = new h[i(1)](j), new k().l++)".
+Proof. vm_compute. reflexivity. Qed.
+Example ex_tree3_wf : wf ex_tree3 /\ lexok ex_tree3.
+Proof.
+  unfold ex_tree3. simpl. unfold word_ok, word_shape, id_shape, num_shape.
+  repeat split; try discriminate; try (left; repeat split; try discriminate; vm_compute; reflexivity); try (vm_compute; reflexivity); try (intro; reflexivity); try (intro; discriminate).
+Qed.
+Example ex_tree3_roundtrip : forall mw, parse_text (print_expr mw ex_tree3) = Some (norm ex_tree3).
+Proof. intro mw. apply print_parse_roundtrip_concrete; apply ex_tree3_wf. Qed.
+Example ex_tree3_fixed : forall mw, print_expr mw (norm ex_tree3) = print_expr mw ex_tree3.
+Proof. intro mw. apply (print_fixed_point_concrete true ex_tree3 _ (proj1 ex_tree3_wf) (proj2 ex_tree3_wf) (ex_tree3_roundtrip true)). Qed.
